@@ -6,6 +6,14 @@ and re-encoded; it must be the spec's value term (else exit 2).  spec -> pytype:
 annotation with every value at the three enforcement sites (argument, return, annotated
 assignment), one line each.  code -> spec: TLC (TraceC02.tla) judges every observed
 (annotation, value, site, error?) by err <=> ~Admits(ann, val).
+
+Function values with a known signature (value terms ["$def", sig], AnnGrammar.FnVals: annotated
+defs, lambdas and bound methods over the dimensions mandatory / defaulted positionals, *args,
+keyword-only without / with default, **kwargs) are put against Callable[[int]*n, int]
+(type terms ["callsig", "", [int]*(n+1)], AnnGrammar.SigAnns) at the same three sites.  The
+oracle's arity rule (PytdTypes.CanCall) is confirmed against CPython by really calling every
+function value with every n.  This family is enumerated completely at every tier and for every
+seed (the seed only picks the sample of the other annotations).
 """
 import argparse
 import json
@@ -26,21 +34,136 @@ TRACE_CFG = "INIT TInit\nNEXT TNext\nINVARIANT Ok\nPOSTCONDITION Done\n"
 MODEL_CFG = "SPECIFICATION Spec\nCONSTANT Export = %s\nINVARIANT Laws\nINVARIANT NonTrivial\nINVARIANT ExportInv\n"
 
 
+# ---- rendering of the terms this property adds to the shared ones (terms.py: add only)
+def asrc(t):
+  """Type term -> annotation source (terms.ann_src plus Callable[[A1..An], R])."""
+  tag, _, args = t
+  if tag == "callsig":
+    return "Callable[[%s], %s]" % (", ".join(asrc(x) for x in args[:-1]), asrc(args[-1]))
+  if tag == "union":
+    if len(args) == 2 and args[1] == ["cls", "NoneType", []]:
+      return "Optional[%s]" % asrc(args[0])
+    return "Union[%s]" % ", ".join(asrc(x) for x in args)
+  return terms.ann_src(t)
+
+
+def _params(g, annotated, first=()):
+  t = ": int" if annotated else ""
+  ps = list(first)
+  ps += ["a%d%s" % (j, t) for j in range(g["mand"])]
+  ps += [("b%d%s = 0" if annotated else "b%d%s=0") % (j, t) for j in range(g["opt"])]
+  if g["star"]:
+    ps.append("*args" + t)
+  elif g["kwreq"] + g["kwdef"]:
+    ps.append("*")
+  ps += ["k%d%s" % (j, t) for j in range(g["kwreq"])]
+  ps += [("d%d%s = 0" if annotated else "d%d%s=0") % (j, t) for j in range(g["kwdef"])]
+  if g["kwargs"]:
+    ps.append("**kw" + t)
+  return ", ".join(ps)
+
+
+def _fname(g):
+  return "%s_%d_%d_%d_%d_%d_%d" % (g["form"][0], g["mand"], g["opt"], int(g["star"]), g["kwreq"],
+                                   g["kwdef"], int(g["kwargs"]))
+
+
+def vsrc(v):
+  """Value term -> ground expression (terms.val_src plus function values ["$def", sig])."""
+  if v[0] != "$def":
+    return terms.val_src(v)
+  g = v[1]
+  if g["form"] == "lambda":
+    return "(lambda %s: 0)" % _params(g, False) if _params(g, False) else "(lambda: 0)"
+  if g["form"] == "method":
+    return "K().%s" % _fname(g)
+  return _fname(g)
+
+
+def preamble(vals):
+  """Definitions the function values of `vals` refer to (annotated defs, class K of methods)."""
+  out, meths = [], []
+  for v in vals:
+    if v[0] != "$def":
+      continue
+    g = v[1]
+    if g["form"] == "def":
+      out += ["def %s(%s) -> int:" % (_fname(g), _params(g, True)), "  return 0"]
+    elif g["form"] == "method":
+      meths += ["  def %s(%s) -> int:" % (_fname(g), _params(g, True, ("self",))), "    return 0"]
+  if meths:
+    out += ["class K:"] + meths
+  return out
+
+
+def encode_fn(obj):
+  """Run-time function object -> signature record of the value term, read off the real object."""
+  import inspect
+  import types
+  form = ("method" if isinstance(obj, types.MethodType) else
+          "lambda" if obj.__name__ == "<lambda>" else "def")
+  P = inspect.Parameter
+  ps = list(inspect.signature(obj).parameters.values())
+  pos = [p for p in ps if p.kind in (P.POSITIONAL_ONLY, P.POSITIONAL_OR_KEYWORD)]
+  kwo = [p for p in ps if p.kind == P.KEYWORD_ONLY]
+  if form != "lambda":
+    common.require(all(p.annotation is int for p in ps) and
+                   inspect.signature(obj).return_annotation is int, "function value not int -> int")
+  return {"form": form,
+          "mand": sum(1 for p in pos if p.default is P.empty),
+          "opt": sum(1 for p in pos if p.default is not P.empty),
+          "star": any(p.kind == P.VAR_POSITIONAL for p in ps),
+          "kwreq": sum(1 for p in kwo if p.default is P.empty),
+          "kwdef": sum(1 for p in kwo if p.default is not P.empty),
+          "kwargs": any(p.kind == P.VAR_KEYWORD for p in ps)}
+
+
+def eval_fn(v):
+  ns = {}
+  exec("\n".join(preamble([v])), ns)  # pylint: disable=exec-used
+  return eval(vsrc(v), ns)  # pylint: disable=eval-used
+
+
+def confirm_functions(fnvals, maxn, cancall):
+  """spec -> CPython for the function fragment: the value term is the real signature, and the
+  oracle's table {(value, n): callable with exactly n positional ints} is what CPython does."""
+  table = {(json.dumps(v, sort_keys=True), n) for v, n in cancall}
+  checked = 0
+  for v in fnvals:
+    obj = eval_fn(v)
+    got = encode_fn(obj)
+    if got != v[1]:
+      raise common.Machinery("value oracle: %s has signature %s, spec says %s" % (vsrc(v), got, v[1]))
+    for n in range(maxn + 1):
+      try:
+        obj(*([1] * n))
+        ok = True
+      except TypeError:
+        ok = False
+      if ok != ((json.dumps(v, sort_keys=True), n) in table):
+        raise common.Machinery("arity oracle: CPython %s %s with %d positional argument(s), "
+                               "PytdTypes.CanCall says the opposite" % (
+                                   "calls" if ok else "cannot call", vsrc(v), n))
+      checked += 1
+  return checked
+
+
 def module_for(ann, vals):
   """Source of the module for one annotation; returns (src, {line: (site, value index)})."""
-  a = terms.ann_src(ann)
+  a = asrc(ann)
   lines = [terms.TYPING_IMPORT.rstrip("\n")] + terms.USER_CLASSES.rstrip("\n").split("\n")
+  lines += preamble(vals)
   lines += ["def f(x: %s) -> None:" % a, "  pass"]
   where = {}
   for k, v in enumerate(vals):
-    lines.append("f(%s)" % terms.val_src(v))
+    lines.append("f(%s)" % vsrc(v))
     where[len(lines)] = ("arg", k)
   for k, v in enumerate(vals):
     lines.append("def r%d() -> %s:" % (k, a))
-    lines.append("  return %s" % terms.val_src(v))
+    lines.append("  return %s" % vsrc(v))
     where[len(lines)] = ("ret", k)
   for k, v in enumerate(vals):
-    lines.append("a%d: %s = %s" % (k, a, terms.val_src(v)))
+    lines.append("a%d: %s = %s" % (k, a, vsrc(v)))
     where[len(lines)] = ("assign", k)
   return "\n".join(lines) + "\n", where
 
@@ -49,13 +172,6 @@ def run_module(job):
   src = job
   r = pyt.analyze(src)
   return (r["outcome"], r["errors"], r["exc"])
-
-
-def family(ann, val, kind):
-  """Spec-level key of a disagreement: names the root-cause family, not the property."""
-  a = terms.ann_src(ann)
-  v = terms.val_src(val)
-  return "C02:%s:%s~%s" % (kind, v, a)
 
 
 def main():
@@ -73,37 +189,66 @@ def main():
   run.put("states", r.distinct)
   run.put("transitions", r.generated)
   common.require(len(r.cases) == 1, "grammar export missing")
-  anns = sorted(r.cases[0]["anns"], key=json.dumps)
-  vals = sorted(r.cases[0]["vals"], key=json.dumps)
-  run.put("annotations_in_grammar", len(anns))
-  run.put("values_in_grammar", len(vals))
+  exp = r.cases[0]
+  anns = sorted(exp["anns"], key=json.dumps)
+  vals = sorted(exp["vals"], key=json.dumps)
+  siganns = sorted(exp["siganns"], key=json.dumps)
+  fnother = sorted(exp["fnother"], key=json.dumps)
+  fnvals = sorted(exp["fnvals"], key=lambda v: json.dumps(v, sort_keys=True))
+  fnsmall = sorted(exp["fnsmall"], key=lambda v: json.dumps(v, sort_keys=True))
+  maxn = exp["maxn"]
+  run.put("annotations_in_grammar", len(anns) + len(siganns))
+  run.put("values_in_grammar", len(vals) + len(fnvals))
+  run.put("function_values_in_grammar", len(fnvals))
+  run.put("callable_signature_annotations", len(siganns))
+  common.require(all(a in anns for a in fnother), "FnOtherAnns not in Anns")
+  common.require(len(fnvals) >= 100 and len(siganns) >= maxn + 1 and len(fnsmall) >= 6 and
+                 {v[1]["form"] for v in fnvals} == {"def", "lambda", "method"} and
+                 any(v[1]["kwdef"] >= 2 for v in fnvals), "vacuity: function-value grammar")
+
+  def vals_for(ann):          # = AnnGrammar.ValsFor
+    return vals + fnvals if ann in siganns else vals + fnsmall if ann in fnother else vals
   # 2. spec -> CPython: the value terms are what the expressions really evaluate to
   for v in vals:
     got = terms.encode(terms.eval_value(terms.val_src(v)))
     if terms.canon_val(got) != terms.canon_val(v):
       raise common.Machinery("value oracle: %s evaluates to %s, spec says %s" % (
           terms.val_src(v), got, v))
+  n_conf = confirm_functions(fnvals, maxn, exp["cancall"])
+  common.require(n_conf == len(fnvals) * (maxn + 1), "arity oracle not confirmed on every pair")
+  run.put("arity_pairs_confirmed_by_cpython", n_conf)
   if a.replay:
     with open(a.replay) as f:
       case = json.load(f)["case"]
     anns = [case["ann"]]
   elif not thorough:
+    # the seed only picks the sample of the compound annotations; scalars, the annotations the
+    # function values are put against and the whole Callable[[..], ..] family are always run
     rng = random.Random(run.seed)
-    scal = [t for t in anns if t[0] in ("any", "cls")]
-    rest = [t for t in anns if t[0] not in ("any", "cls")]
-    anns = scal + rng.sample(rest, min(len(rest), 110))
+    scal = [t for t in anns if t[0] in ("any", "cls") or t in fnother]
+    rest = [t for t in anns if t not in scal]
+    anns = scal + rng.sample(rest, min(len(rest), 110 - (len(scal) - 12))) + siganns
+  else:
+    anns = anns + siganns
+  if os.environ.get("C02_DEV_FN"):
+    anns = fnother + siganns
   # 3. spec -> pytype
   jobs = []
+  CHUNK = 96
   for ann in anns:
-    src, where = module_for(ann, vals)
-    jobs.append((ann, src, where))
+    vs = vals_for(ann)
+    for off in range(0, len(vs), CHUNK if len(vs) > 120 else len(vs)):
+      part = vs[off:off + (CHUNK if len(vs) > 120 else len(vs))]
+      src, where = module_for(ann, part)
+      jobs.append((ann, src, where, part))
+  jobs.sort(key=lambda j: -len(j[3]))
   results = pyt.batch(run_module, [j[1] for j in jobs], procs=8, chunksize=2)
   cases = []
   other = {}
-  for (ann, src, where), (outcome, errors, exc) in zip(jobs, results):
+  for (ann, src, where, part), (outcome, errors, exc) in zip(jobs, results):
     if outcome != "result":
       raise common.Machinery("pytype did not analyse the module for %s: %s %s" % (
-          terms.ann_src(ann), outcome, exc[-800:]))
+          asrc(ann), outcome, exc[-800:]))
     flagged = {}
     for name, line, msg in errors:
       if line in where and name == SITE_ERR[where[line][0]]:
@@ -112,9 +257,9 @@ def main():
         other[name] = other.get(name, 0) + 1
         if name in ("invalid-annotation", "name-error", "import-error", "not-supported-yet"):
           raise common.Machinery("grammar renders an annotation pytype rejects: %s line %s %s %s" % (
-              terms.ann_src(ann), line, name, msg[:200]))
+              asrc(ann), line, name, msg[:200]))
     for line, (site, k) in where.items():
-      cases.append({"ann": ann, "val": vals[k], "site": site, "err": bool(flagged.get(line))})
+      cases.append({"ann": ann, "val": part[k], "site": site, "err": bool(flagged.get(line))})
   run.put("other_errors", other)
   # 4. code -> spec: TLC judges
   bads = []
@@ -144,9 +289,33 @@ def main():
           "distinct by (annotation, value)")
   run.put("exhaustive", thorough)
   common.require(nerr > 500 and total - nerr > 500, "vacuity: outcomes not mixed")
-  run.sample({"ann": terms.ann_src(cases[len(cases) // 2]["ann"]),
-              "val": terms.val_src(cases[len(cases) // 2]["val"]),
+  run.sample({"ann": asrc(cases[len(cases) // 2]["ann"]),
+              "val": vsrc(cases[len(cases) // 2]["val"]),
               "site": cases[len(cases) // 2]["site"], "err": cases[len(cases) // 2]["err"]})
+  # vacuity of the function-value family (counts only; the verdict is TLC's)
+  if not a.replay:
+    fam = [c for c in cases if c["val"][0] == "$def" and c["ann"][0] == "callsig"]
+    has_sig = lambda t: _contains(t, lambda u: u[0] == "callsig")  # noqa: E731
+    nested = [c for c in cases if c["val"][0] == "$def" and c["ann"][0] == "union" and has_sig(c["ann"])]
+    plain = [c for c in cases if c["val"][0] == "$def" and not has_sig(c["ann"])]
+    # the boundary the arity rule is about: too few arguments for the mandatory positionals
+    # while keyword-only parameters with defaults are present
+    edge = [c for c in fam if c["val"][1]["kwdef"] > 0 and
+            c["val"][1]["mand"] - c["val"][1]["kwdef"] <= len(c["ann"][2]) - 1 < c["val"][1]["mand"]]
+    run.put("function_cases", {"callsig": len(fam), "nested": len(nested), "other": len(plain),
+                               "callsig_errors": sum(1 for c in fam if c["err"]),
+                               "kwonly_default_below_mandatory": len(edge),
+                               "forms": sorted({c["val"][1]["form"] for c in fam})})
+    run.sample({"ann": asrc(edge[0]["ann"]) if edge else "", "val": vsrc(edge[0]["val"]) if edge else "",
+                "site": edge[0]["site"] if edge else "", "err": edge[0]["err"] if edge else False})
+    common.require(len(fam) == 3 * len(fnvals) * (maxn + 1), "vacuity: function values x Callable[[..], ..] incomplete")
+    common.require(sum(1 for c in fam if c["err"]) >= 300 and sum(1 for c in fam if not c["err"]) >= 300,
+                   "vacuity: function-value outcomes not mixed")
+    common.require(len(edge) >= 150 and {c["site"] for c in edge} == {"arg", "ret", "assign"} and
+                   {c["val"][1]["form"] for c in edge} == {"def", "lambda", "method"},
+                   "vacuity: keyword-only-default boundary not exercised")
+    common.require(len(nested) >= 3 * len(fnvals) and len(plain) >= 3 * len(fnsmall) * len(fnother),
+                   "vacuity: function values against Optional/Union/non-callable annotations")
   fams = {}
   for idx, fails in bads:
     c = cases[idx]
@@ -157,7 +326,7 @@ def main():
     c = cs[0]
     run.violation(key, "%s: %s for value %s against %s at site(s) %s (%d cases)" % (
         key, "error reported on a conforming value" if "false-positive" in key else "no error reported",
-        terms.val_src(c["val"]), terms.ann_src(c["ann"]), sorted({x["site"] for x in cs}), len(cs)),
+        vsrc(c["val"]), asrc(c["ann"]), sorted({x["site"] for x in cs}), len(cs)),
         {"ann": c["ann"], "val": c["val"], "site": c["site"], "err": c["err"]})
   run.put("disagreement_families", {k: len(v) for k, v in fams.items()})
   return run.finish()
@@ -177,12 +346,19 @@ def _vcontains(v, pred):
   return False
 
 
+def _vkey(v):
+  """Name of a value in a finding key: the expression; for a def / method the signature too."""
+  if v[0] == "$def" and v[1]["form"] != "lambda":
+    return "%s(%s)" % (vsrc(v), _params(v[1], False))
+  return vsrc(v)
+
+
 def classify(c, f):
   """Key = root-cause family (documented in DESIGN.md section 8) or the exact pair."""
   ann, val = c["ann"], c["val"]
   if ":" in f:           # explained by exactly one documented deviation (computed by TLC)
     return "C02:%s" % f
-  return "C02:%s:%s~%s@%s" % (f, terms.val_src(val), terms.ann_src(ann), c["site"])
+  return "C02:%s:%s~%s@%s" % (f, _vkey(val), asrc(ann), c["site"])
 
 
 if __name__ == "__main__":
